@@ -49,6 +49,7 @@ class Ctx:
         self.notes = {}
         self.sym_inputs = []      # (name, term) registered by the harness for witnesses
         self.transitions = 0
+        self.want_sample = False
 
     # -- naming
     def fresh_name(self, base):
@@ -280,6 +281,7 @@ def run_paths(harness, solver, prefixes, opts, budget_paths, budget_s):
         prefix = stack.pop()
         solver.push()
         ctx = Ctx(solver, prefix, stats, opts)
+        ctx.want_sample = len(res['samples']) < max_samples
         stats['paths'] += 1
         try:
             out = harness.run_path(ctx)
